@@ -49,7 +49,7 @@ var (
 	r5dirs   = []string{"internal/chain/beacon", "internal/core", "internal/dkg", "handler/http"}
 	hits     = counts{}
 	overlay  = map[string]string{}
-	required = map[string]int{"R3.Listen": 3, "R3.NewGrpcClient": 3, "R3.UnaryInterceptor": 1, "R3.StreamInterceptor": 1}
+	required = map[string]int{"R3.Listen": 4, "R3.NewGrpcClient": 3, "R3.UnaryInterceptor": 1, "R3.StreamInterceptor": 1}
 )
 
 func main() {
@@ -83,7 +83,7 @@ func main() {
 		dir := filepath.ToSlash(filepath.Dir(rel))
 		inR1 := under(dir, r1dirs)
 		inR5 := under(dir, r5dirs)
-		isNet := dir == "internal/net"
+		isNet := dir == "internal/net" || dir == "internal/metrics"
 		if !inR1 && !inR5 && !isNet {
 			return nil
 		}
